@@ -7,7 +7,7 @@ from vf.clientrun import FPS, Env
 
 HOSTS = ["a.example", "b.example"]
 KEYS = [("a.example", 1965), ("a.example", 7000), ("b.example", 1965)]
-CERT = [0, 1, 2, "bad", "nossl", "nocert"]       # index into the three real certificates, or an unreadable one
+CERT = [0, 1, 2, 3, "bad", "nossl", "nocert"]    # index into the real certificates (3 = long expired), or an unreadable one
 
 
 def _url(key, path="/x"):
@@ -139,7 +139,7 @@ def history(a1: int, k1: int, c1: int, a2: int, k2: int, c2: int, a3: int, k3: i
 
 def redirect_hop(p_first: int, p_second: int, c_second: int, same_host: bool) -> bool:
     """
-    pre: 0 <= p_first <= 2 and 0 <= p_second <= 2 and 0 <= c_second <= 3
+    pre: 0 <= p_first <= 2 and 0 <= p_second <= 2 and 0 <= c_second <= 4
     post: _
     """
     # hop 1 (a.example) presents certificate 0 and redirects to hop 2; hop 2 presents c_second
@@ -195,19 +195,19 @@ STUBS = ["MiniLoop.create_connection -> scripted peer", "ModelSQL", "FakeDatetim
 OBLIGATIONS = [
     Ob("step_get", step_get, quick=500, thorough=1200,
        symbolic="entry point: get without redirect following; pins of 3 host:port keys (none / cert A / B), target key, "
-                "presented certificate (A / B / C / unparseable DER / no ssl_object / no certificate), TOFU on/off",
+                "presented certificate (A / B / C / an expired one / unparseable DER / no ssl_object / no certificate), TOFU on/off",
        functions=FN, stubs=STUBS),
     Ob("step_get_follow", step_get_follow, quick=500, thorough=1200,
        symbolic="entry point: get with redirect following; pins of 3 host:port keys (none / cert A / B), target key, "
-                "presented certificate (A / B / C / unparseable DER / no ssl_object / no certificate), TOFU on/off",
+                "presented certificate (A / B / C / an expired one / unparseable DER / no ssl_object / no certificate), TOFU on/off",
        functions=FN, stubs=STUBS),
     Ob("step_upload", step_upload, quick=500, thorough=1200,
        symbolic="entry point: upload (Titan); pins of 3 host:port keys (none / cert A / B), target key, "
-                "presented certificate (A / B / C / unparseable DER / no ssl_object / no certificate), TOFU on/off",
+                "presented certificate (A / B / C / an expired one / unparseable DER / no ssl_object / no certificate), TOFU on/off",
        functions=FN, stubs=STUBS),
     Ob("step_delete", step_delete, quick=500, thorough=1200,
        symbolic="entry point: delete (Titan, zero bytes); pins of 3 host:port keys (none / cert A / B), target key, "
-                "presented certificate (A / B / C / unparseable DER / no ssl_object / no certificate), TOFU on/off",
+                "presented certificate (A / B / C / an expired one / unparseable DER / no ssl_object / no certificate), TOFU on/off",
        functions=FN, stubs=STUBS),
     Ob("history", history, quick=700, thorough=1500,
        symbolic="sequence of 2 (quick) / 3 (thorough) operations over {get, upload, trust, revoke, clear} x 3 keys x 2 certificates, "
